@@ -38,7 +38,12 @@
 //! assert_eq!(controller.limit(), 5); // 11 * 0.5 = 5.5 -> 5
 //! ```
 
+#[cfg(not(feature = "verif-hooks"))]
 use std::sync::atomic::{AtomicUsize, Ordering};
+#[cfg(feature = "verif-hooks")]
+use crate::verif::atomic::AtomicUsize;
+#[cfg(feature = "verif-hooks")]
+use std::sync::atomic::Ordering;
 
 /// Configuration for an AIMD controller.
 #[derive(Debug, Clone)]
